@@ -1,6 +1,7 @@
 package policy
 
 import (
+	"fmt"
 	"strings"
 	"sync"
 
@@ -27,6 +28,16 @@ type DanglingEvent struct {
 type Watch struct {
 	mu     sync.Mutex
 	events []DanglingEvent
+	limits []DanglingEvent // submissions refused for carrying more ports than multiport takes
+}
+
+// TakeLimits returns and clears the refused-for-too-many-ports submissions.
+func (w *Watch) TakeLimits() []DanglingEvent {
+	w.mu.Lock()
+	defer w.mu.Unlock()
+	out := w.limits
+	w.limits = nil
+	return out
 }
 
 func (w *Watch) add(ev DanglingEvent) {
@@ -175,6 +186,68 @@ func (x *WatchIPS) AddEntryWithOptions(entry *ipset.Entry, set *ipset.IPSet, ign
 	return x.Interface.AddEntryWithOptions(entry, set, ignoreExistErr)
 }
 
+// MultiportMax: iptables' multiport match takes at most 15 ports (XT_MULTI_PORTS); a rule with more is refused when it is
+// parsed ("too many ports specified") and iptables-restore then applies NOTHING of the batch.
+const MultiportMax = 15
+
+// LimitIPT refuses submissions that carry a multiport match with more than MultiportMax ports (neither the repo's
+// lenient fake nor harness/nf know the limit).
+type LimitIPT struct {
+	utiliptables.Interface
+	W *Watch // may be nil
+}
+
+func tooManyPorts(words []string) bool {
+	for i := 0; i+1 < len(words); i++ {
+		switch words[i] {
+		case "--dports", "--sports", "--ports", "--destination-ports", "--source-ports":
+			if len(strings.Split(words[i+1], ",")) > MultiportMax {
+				return true
+			}
+		}
+	}
+	return false
+}
+
+func (x *LimitIPT) refuse(op, detail string) error {
+	if x.W != nil {
+		x.W.mu.Lock()
+		x.W.limits = append(x.W.limits, DanglingEvent{Op: op, Class: "too-many-ports", Detail: detail})
+		x.W.mu.Unlock()
+	}
+	return fmt.Errorf("iptables v1.8.9 (nf_tables): too many ports specified: %s", detail)
+}
+
+func (x *LimitIPT) checkBatch(data []byte) error {
+	for _, line := range strings.Split(string(data), "\n") {
+		if ws := Tokenize(line); len(ws) > 0 && (ws[0] == "-A" || ws[0] == "-I") && tooManyPorts(ws) {
+			return x.refuse("restore", line)
+		}
+	}
+	return nil
+}
+
+func (x *LimitIPT) RestoreAll(data []byte, flush utiliptables.FlushFlag, counters utiliptables.RestoreCountersFlag) error {
+	if err := x.checkBatch(data); err != nil {
+		return err
+	}
+	return x.Interface.RestoreAll(data, flush, counters)
+}
+
+func (x *LimitIPT) Restore(t utiliptables.Table, data []byte, flush utiliptables.FlushFlag, counters utiliptables.RestoreCountersFlag) error {
+	if err := x.checkBatch(data); err != nil {
+		return err
+	}
+	return x.Interface.Restore(t, data, flush, counters)
+}
+
+func (x *LimitIPT) EnsureRule(p utiliptables.RulePosition, t utiliptables.Table, c utiliptables.Chain, args ...string) (bool, error) {
+	if tooManyPorts(args) {
+		return false, x.refuse("ensure-rule", strings.Join(args, " "))
+	}
+	return x.Interface.EnsureRule(p, t, c, args...)
+}
+
 // FaultHistories: the systematic part of the C15 quick tier: `ipset create` fails once for ONE set, each set position
 // in turn (target set, sip / snet / dip / dnet peer set), during the first sync from an empty kernel and during a
 // later sync where the policy chains already exist.  On the unchanged tree syncRules aborts before submitting rules.
@@ -196,5 +269,38 @@ func FaultHistories() map[string][]string {
 		h = append(h, "fullsync A0", "fault ipset-create "+pos.match+" 1", "fullsync A", "fullsync A", "check A")
 		out["fault-"+pos.tag+"-later"] = h
 	}
+	return out
+}
+
+// FreshHistories: the systematic part of the C15 quick tier about a FRESH process (pod informer factory not started:
+// it has seen no NetworkPolicy) that finds galaxy's rules / sets of a previous process in the kernel:
+// the last policy was deleted while galaxy was down (with and without pod chains referencing the stale policy chain),
+// zero policies over junk + foreign prior state, policies but no local pods, nothing at all.
+func FreshHistories() map[string][]string {
+	pods := []string{"ns ns1 name=ns1", "pod ns1 a - node1 10.0.1.1 app=a", "pod ns1 b - node2 10.0.1.2 app=b"}
+	world := func(name string, extra ...string) []string {
+		return append(append([]string{"world " + name}, pods...), extra...)
+	}
+	junk := []string{"lset GLX-ip-JUNKJUNKJUNKJUNK hash:ip 10.9.9.9", "lset GLX-snet-0-JUNKJUNKJUNKJUNK hash:net 10.9.0.0/16,10.9.1.0/24+nomatch",
+		"lchain GLX-PLCY-JUNKJUNKJUNKJUNK",
+		"lrule GLX-PLCY-JUNKJUNKJUNKJUNK -m comment --comment junk_ns -p all -m set --match-set GLX-snet-0-JUNKJUNKJUNKJUNK src -m set --match-set GLX-ip-JUNKJUNKJUNKJUNK dst -j ACCEPT",
+		"lchain KUBE-FORWARD", "lrule KUBE-FORWARD -s 10.0.0.0/8 -j ACCEPT", "lrule FORWARD -m comment --comment kubernetes -j KUBE-FORWARD",
+		"lset KUBE-CLUSTER-IP hash:ip 10.96.0.1"}
+	out := map[string][]string{}
+	h := world("A", "pol ns1 x - app=a I ns:name=ns1,ip:10.0.0.0/8!10.0.1.0/24@tcp/80 -")
+	h = append(h, world("Z")...)
+	out["fresh-last-policy-deleted-pod-chain-refers"] = append(h, "fullsync A", "restart", "fullsync Z", "fullsync Z", "check Z")
+	h = world("A", "pol ns1 x - app=zzz IE ns:name=ns1,ip:10.0.0.0/8!10.0.1.0/24@tcp/80 pod:app=b@-")
+	h = append(h, world("Z")...)
+	out["fresh-last-policy-deleted-no-pod-chain"] = append(h, "fullsync A", "restart", "fullsync Z", "check Z")
+	h = world("Z")
+	h = append(h, junk...)
+	out["fresh-zero-policies-junk-and-foreign"] = append(h, "restart", "fullsync Z", "check Z")
+	h = []string{"world P", "ns ns1 name=ns1", "pod ns1 b - node2 10.0.1.2 app=b", "pol ns1 x - app=b I ns:name=ns1@tcp/80 -"}
+	h = append(h, junk...)
+	out["fresh-policies-but-no-local-pods"] = append(h, "restart", "fullsync P", "check P")
+	h = []string{"world E", "ns ns1 name=ns1"}
+	h = append(h, junk...)
+	out["fresh-nothing-at-all"] = append(h, "restart", "fullsync E", "check E")
 	return out
 }
